@@ -73,7 +73,7 @@ pub fn transform(ops: &[Op], rng: &mut Rng, kind: u64) -> Vec<Op> {
     }
     // injective relabelling of the resource universe
     let mut univ: Vec<Res> = (0..NTY).flat_map(|t| (0..NDY).map(move |d| (t, d))).collect();
-    let fixed: Vec<Res> = if has_ctl_data(ops) { vec![(0, 0), (1, 0), (2, 0), (3, 0), (4, 0)] } else { vec![] };
+    let fixed: Vec<Res> = if has_ctl_data(ops) { vec![(0, 0), (1, 0), (2, 0), (3, 0), (4, 0), (5, 0)] } else { vec![] };
     univ.retain(|r| !fixed.contains(r));
     let mut img = univ.clone();
     if kind & 2 != 0 {
@@ -105,7 +105,7 @@ pub fn run(args: &Args, rep: &mut Report) {
     let every = args.num("process-every", 10);
     let mut drv = Drv::spawn(&args.str("driver", "/verif/lean/.lake/build/bin/driver"));
     let pool = make_pool(2);
-    rep.rule = "generated registration sequences, each built in its original form and under 3 random transformations (renamed systems, injectively relabelled resources across types and dynamic ids, permuted / duplicated declared lists), a sample of them again in a second process; distinct = distinct executed layouts; non-trivial = two stages, a joined group or a batch".into();
+    rep.rule = "generated registration sequences, each built in its original form and under 3 random transformations (renamed systems, injectively relabelled resources across types and dynamic ids, permuted / duplicated declared lists), each also registered on workers of 1-, 3- and 9-thread rayon pools, a sample of them again in a second process with another RAYON_NUM_THREADS; distinct = distinct executed layouts; non-trivial = two stages, a joined group or a batch".into();
     let mut todo: Vec<(String, Vec<Op>)> = vec![];
     if let Some(f) = args.get("replay") {
         let text = std::fs::read_to_string(&f).expect("replay file");
@@ -113,7 +113,7 @@ pub fn run(args: &Args, rep: &mut Report) {
         todo.push(("replay".into(), Op::parse(&lines)));
     } else {
         for c in 0..cases {
-            let prof = ["plan", "batch", "funnel", "deps"][(c % 4) as usize];
+            let prof = ["plan", "batch", "funnel", "deps", "wide"][(c % 5) as usize];
             let mut cfg = GenCfg::profile(prof);
             cfg.p_dup_name = 0;
             cfg.p_unknown_dep = 0;
@@ -131,6 +131,8 @@ pub fn run(args: &Args, rep: &mut Report) {
     let exe = std::env::current_exe().unwrap();
     let tmp = format!("{}.case", args.str("out", "/verif/evidence/.inv"));
     let mut reported = false;
+    #[cfg(feature = "parallel")]
+    let installers: Vec<rayon::ThreadPool> = [1usize, 3, 9].iter().map(|n| rayon::ThreadPoolBuilder::new().num_threads(*n).build().unwrap()).collect();
     for (k, (label, ops)) in todo.iter().enumerate() {
         drv.begin_case();
         let (l0, mdiff) = layout_of(ops, Some(&mut drv), &pool);
@@ -179,9 +181,22 @@ pub fn run(args: &Args, rep: &mut Report) {
                 rep.violate("C19", "impl", "", format!("transformation kind {} (1 rename, 2 relabel resources, 4 permute lists) changes the layout: {} vs {} [{}]", kind, l0, l1, label), case_lines(&small));
             }
         }
+        // the thread that registers: inside rayon pools of several sizes (what
+        // `rayon::current_num_threads()` answers differs) the plan must be the same
+        #[cfg(feature = "parallel")]
+        for (pi, ip) in installers.iter().enumerate() {
+            let l3 = ip.install(|| layout_of(ops, None, &pool).0);
+            rep.count("builds_inside_other_pools");
+            if l3 != l0 && !reported {
+                reported = true;
+                let small = shrink(ops, &mut |c: &[Op]| ip.install(|| layout_of(c, None, &pool).0) != layout_of(c, None, &pool).0);
+                rep.violate("C19", "impl", "", format!("registering the same sequence on a worker of a {}-thread rayon pool changes the layout: {} vs {} [{}]", [1, 3, 9][pi], l0, l3, label), case_lines(&small));
+            }
+        }
         if every > 0 && (k as u64) % every == 0 {
             std::fs::write(&tmp, case_lines(ops).join("\n") + "\n").ok();
-            let o = std::process::Command::new(&exe).args(["plan-layout", "--replay", &tmp]).output();
+            // the second process also sees another default pool size
+            let o = std::process::Command::new(&exe).args(["plan-layout", "--replay", &tmp]).env("RAYON_NUM_THREADS", if (k as u64 / every.max(1)) % 2 == 0 { "2" } else { "7" }).output();
             rep.count("second_process_builds");
             if let Ok(o) = o {
                 let l2 = String::from_utf8_lossy(&o.stdout).trim().to_string();
